@@ -16,7 +16,13 @@ pub fn owners(d: &Disagreement) -> Vec<&'static str> {
     match d.kind {
         Kind::Mode => vec!["C06"],
         Kind::Position | Kind::TokenPosition | Kind::QueryImpure => vec!["C09"],
-        Kind::Peek | Kind::PeekImpure => vec!["C11"],
+        Kind::Peek | Kind::PeekImpure => {
+            if d.history_has_reset() {
+                vec!["C11", "C10"]
+            } else {
+                vec!["C11"]
+            }
+        }
         Kind::Next => {
             let mut v = vec![];
             if d.history_has_reset() {
